@@ -10,7 +10,14 @@ def run(chk):
     configs = [(2, 0), (2, 1)] + ([(3, 0), (3, 1)] if thorough else [(3, 0)])
     chk.bounds.update({'E-MIR': 'n (network variables), c (explicit colour bits, symbolic valid-colour mask): ' + str(configs) + '; all transition systems, all argument sets inside the unit set',
                        'loop_unwinding': 'gfp/lfp loops 2^n+2, saturation 2^(n+c)+2, each with an unwinding assertion'})
-    for n, c in configs:
+    from ..run import run_parallel
+    run_parallel(chk, 'hv.props.c13', 'kernel_part', configs)
+    # dispatch through eval_node + end to end on the real libraries
+    unicheck.run_family(chk, 'C13', unicheck.family_c13(chk))
+
+def kernel_part(chk, cfg):
+    n, c = cfg
+    if True:
         lab = KL.Lab(chk, n, c)
         a, b = lab.set('a'), lab.set('b')
         ew = lab.run('eval_ew', [a, b, lab.steady, lab.cb])
@@ -30,5 +37,3 @@ def run(chk):
         KL.require(lab, 'b <= eval_ew(a, b)', (b & ~ew) == 0, ('sub', B, ('EW', A, B)), twin=((a & ~ew) == 0), diff=b & ~ew)
         KL.require(lab, 'b <= eval_aw(a, b)', (b & ~aw) == 0, ('sub', B, ('AW', A, B)), twin=((a & ~aw) == 0), diff=b & ~aw)
         KL.require(lab, 'eval_aw(a, b) <= eval_ew(a, b)', (aw & ~ew) == 0, ('sub', ('AW', A, B), ('EW', A, B)), twin=((ew & ~aw) == 0), diff=aw & ~ew)
-    # dispatch through eval_node + end to end on the real libraries
-    unicheck.run_family(chk, 'C13', unicheck.family_c13(chk))
